@@ -168,6 +168,8 @@ def run(ctx):
         for shape in ('plain', 'opt', 'frag', 'frag2', 'trunc', 'trail'):
             need += ['V:tcp%d:%s' % (fam, shape), 'V:udp%d:%s' % (fam, shape)]
         need += ['V:tcp%d:badoff' % fam, 'V:udp%d:l4short' % fam, 'V:other%d:plain' % fam, 'T:tcp%d:plain' % fam, 'T:udp%d:plain' % fam]
+    if not ctx.quick:
+        need.append('V:len4')
     ctx.require_actions(*need)
 
 
